@@ -16,9 +16,11 @@ def units():
                                       "assigns": "psf->error, psf->syserr, g_eintr_budget, verif_errno_cell" + (", __CPROVER_object_whole (ptr)" if fn == "psf_fread" else ""),
                                       "invariants": inv, "decreases": "items + g_eintr_budget"}]},
                       "kind": "enumerated(item size=%d)" % b, "tier": "quick" if b in (1, 2, 3) else "thorough"})
-    for fn, entry in (("psf_fseek", "h_fseek"), ("psf_ftell", "h_ftell"), ("psf_fclose", "h_fclose"), ("psf_close_rsrc", "h_close_rsrc"), ("psf_open_rsrc", "h_open_rsrc")):
+    for fn, entry in (("psf_fseek", "h_fseek"), ("psf_ftell", "h_ftell"), ("psf_fclose", "h_fclose"), ("psf_close_rsrc", "h_close_rsrc"), ("psf_open_rsrc", "h_open_rsrc"), ("psf_ftruncate", "h_ftruncate")):
         u = {"name": "file_io." + fn, "props": ["C14", "C15", "C16", "C19"], "harness": "file_io.harness.c", "entry": entry,
              "enforce": fn, "function": "file_io.c:" + fn, "trusted": E, "timeout": 600, "pre_gi_flags": ["--generate-function-body", "psf_log_printf", "--generate-function-body-options", "nondet-return"]}
+        if fn == "psf_ftruncate":
+            u["props"] = ["C08", "C15", "C09"]
         if fn == "psf_open_rsrc":
             u["props"] = ["C16", "C19"]
             u["loops"] = {"psf_close_fd": [{"loop_id": 0, "assigns_locals": True, "assigns": "g_close_calls, g_closed_fd, g_eintr_budget, verif_errno_cell, g_released",
